@@ -175,4 +175,16 @@ def avgSubsetConnectivity {α} [WNum α] (f : Row → Row → α) (rows : List R
     (sampled : List (Nat × Nat)) : α × α :=
   avgConnectivity f (V.map fun v => rows.getD v []) maxc thresh sampled
 
+/-! ## error paths: sequences that are not aligned (different lengths) -/
+
+/-- the pairs an averaging routine calls its pairwise function on: none for N ≤ 1, all i < j in the exhaustive branch, the
+    sampled ones otherwise -/
+def visitedPairs (N maxc : Nat) (sampled : List (Nat × Nat)) : List (Nat × Nat) :=
+  if N ≤ 1 then [] else if exhaustive N maxc then allPairs N else sampled
+
+/-- the matrix and averaging routines stop with the pairwise function's eslEINVAL at the first visited pair whose two
+    sequences differ in length (outputs NULL resp. 0) -/
+def unalignedVisited (rows : List Row) (pairs : List (Nat × Nat)) : Bool :=
+  pairs.any fun p => (rows.getD p.1 []).length != (rows.getD p.2 []).length
+
 end EaselModel.Weights
